@@ -80,11 +80,11 @@ class Gene:
 
     @property
     def start(self):
-        return min(t.start for t in self.transcripts)
+        return min(t.start for t in (self.transcripts or self.hidden))
 
     @property
     def end(self):
-        return max(t.end for t in self.transcripts)
+        return max(t.end for t in (self.transcripts or self.hidden))
 
 
 class Read:
